@@ -49,6 +49,28 @@ func ecScalars(c elliptic.Curve, thorough bool) []*big.Int {
 		x := new(big.Int).Lsh(big.NewInt(top), uint(8*(bl-1)))
 		cand = append(cand, x, new(big.Int).Add(x, one))
 	}
+	// scalars whose public point has a coordinate with a leading zero byte (shorter than the field when written without
+	// padding), with a top byte >= 0x80, and both at once: found by walking d = 3, 4, 5, ... (deterministic, no randomness)
+	fl := (c.Params().BitSize + 7) / 8
+	need := map[string]bool{"x-short": true, "y-short": true, "x-high": true, "y-high": true}
+	if c.Params().BitSize%8 != 0 {
+		delete(need, "x-high") // P-521: the top byte only holds one bit
+		delete(need, "y-high")
+	}
+	for d := int64(3); len(need) > 0 && d < 20000; d++ {
+		x, y := c.ScalarBaseMult(big.NewInt(d).Bytes())
+		hit := false
+		for k, v := range map[string]bool{"x-short": len(x.Bytes()) < fl, "y-short": len(y.Bytes()) < fl,
+			"x-high": len(x.Bytes()) == fl && x.Bytes()[0] >= 0x80, "y-high": len(y.Bytes()) == fl && y.Bytes()[0] >= 0x80} {
+			if v && need[k] {
+				delete(need, k)
+				hit = true
+			}
+		}
+		if hit {
+			cand = append(cand, big.NewInt(d))
+		}
+	}
 	seen := map[string]bool{}
 	var out []*big.Int
 	for _, d := range cand {
@@ -156,7 +178,7 @@ type equaler interface {
 type pubEqualer interface{ Equal(x crypto.PublicKey) bool }
 
 func runC14(c *vlib.Check) {
-	c.Rule = "part 1: deterministically built keys — EC private scalars from the boundary alphabet restricted to [1, n-1] (leading 0x00 / 0x80 / 0x7F bytes, 2^(8k)±1, n-1, ...) on P-224/256/384/521, " +
+	c.Rule = "part 1: deterministically built keys — EC private scalars from the boundary alphabet restricted to [1, n-1] (leading 0x00 / 0x80 / 0x7F bytes, 2^(8k)±1, n-1, ...) plus the first scalars whose public point has an X / Y coordinate with a leading zero byte or a top byte >= 0x80, on P-224/256/384/521, " +
 		"RSA keys of 1024 and 2048 bits assembled from primes found by deterministic search, symmetric keys and secrets of lengths 0..33 — x every register format the builder offers " +
 		"(PKCS#1, PKCS#8, SEC1, X.509 SPKI, transparent RSA/ECDSA/EC, raw, transparent symmetric) and, for 3 scalars per curve and 2 RSA keys, every other register entry point (PrivateKey / PublicKey, Pkcs1/Pkcs8/Sec1 DER, X.509 DER, PemKey / PemPrivateKey / PemPublicKey with every PEM block type, SecretString), read back with PrivateKey/PublicKey and PemPrivateKey/PemPublicKey x client versions 1.0..1.4 x {binary, XML, JSON}: " +
 		"builder -> Register request -> wire -> object -> Get response -> wire -> accessors, compared with Equal. " +
